@@ -338,7 +338,6 @@ func concretisePure(c *frCase, f *frFamily, in *frInput, idx int, rng *rand.Rand
 	out := &concrete{desc: map[string]interface{}{}}
 	var buf bytes.Buffer
 	w := NewV030ReadWriter(bytes.NewReader(nil), &buf, nopCloser{})
-	type span struct{ start, l int }
 	var frames []struct {
 		start int
 		cls   int
